@@ -307,6 +307,26 @@ def stepLine (s : Sys) (toks : List String) : Sys × List String :=
     match parsePosts posts with
     | some ps => if s.ringLive then s.rpoll ps else (s, ["bad-op"])
     | none => (s, ["bad-op"])
+  | ["life", "rpollfail", e] =>
+    -- `Ring::poll` whose `io_uring_enter` fails with errno `e` (not ETIME/EINTR): the kernel took
+    -- nothing, no wake pass, `poll` returns the error; with completions already queued there is no
+    -- kernel entry at all and the call is an ordinary `rpoll`
+    match parseNat e with
+    | some e =>
+      if !(1 ≤ e ∧ e < 4096 ∧ e ≠ 4 ∧ e ≠ 62) || !s.ringLive then (s, ["bad-op"])
+      else if s.cq.isEmpty then
+        (s, [s!"enter submit={s.sq.length}", "wakes - frees -", s!"error {e}", s!"cqhead={s.cqHead}"])
+      else s.rpoll []
+    | none => (s, ["bad-op"])
+  | ["life", "pollfail", i, w, e] =>
+    -- a poll / a drop during which `io_uring_enter` would fail: neither enters the kernel
+    match parseNat i, parseNat w, parseNat e with
+    | some i, some w, some e => if 1 ≤ e ∧ e < 4096 ∧ e ≠ 4 ∧ e ≠ 62 then s.poll i w else (s, ["bad-op"])
+    | _, _, _ => (s, ["bad-op"])
+  | ["life", "dropfail", i, e] =>
+    match parseNat i, parseNat e with
+    | some i, some e => if 1 ≤ e ∧ e < 4096 ∧ e ≠ 4 ∧ e ≠ 62 then s.dropOp i else (s, ["bad-op"])
+    | _, _ => (s, ["bad-op"])
   | ["life", "race", kind, i, w, sched] =>
     -- two threads race on operation `i` (see the harness); the effects are
     -- reported by the two following ops, in linearisation order
